@@ -1018,7 +1018,9 @@ impl Tuple {
 
         // Write header
         let original_xmin = self.xmin();
-        let header = TupleHeader::new(old_version + 1, original_xmin, None);
+        // The version label is one byte and is never reset (not even by vacuum): it wraps around
+        // instead of overflowing at the 256th version of a row.
+        let header = TupleHeader::new(old_version.wrapping_add(1), original_xmin, None);
         cursor = header.write_to(buffer, cursor);
 
         // Write null bitmap for new values
